@@ -205,12 +205,15 @@ Definition mon_bars (ins : list N) : list N :=
 (* 1253: no sizing pattern while decoding is enabled. [fn; n; trace (w, off, val, cmd logged by the twin)]:
    (a) every all-ones BAR write was issued with both decode bits clear (as logged),
    (b) replaying the writes on the reference function, BARs hold their original content whenever
-       decoding is enabled *)
+       decoding is enabled,
+   (c) no register other than the command register and the six BARs is written *)
 Definition mon_decode (ins : list N) : list N :=
   match take_fn ins with
   | Some (d, n :: r) =>
       let tr := dec_trace (pcnt n r) r in
-      [b2n ((lenN tr =? n) && sizing_writes_safe tr && decode_safe (bar_vals d) d tr)]
+      [b2n ((lenN tr =? n) && sizing_writes_safe tr && decode_safe (bar_vals d) d tr
+            (* (c) probing writes the command register and the six BAR registers only *)
+            && forallb (fun a => negb (a_write a) || is_bar_off (a_off a) || (a_off a =? 4)) tr)]
   | _ => pbad end.
 (* 1254: bars(): every BAR of the layout reported as it is, upper halves reported absent.
    [6 x (kind, mask, val); 6 x info(5)] *)
